@@ -2029,9 +2029,11 @@ func (ex *Exec) ret(st *State, fr *Frame, x *ssa.Return) {
 				} else {
 					g = lev.Bool(cl.E)
 				}
-				ex.oblige(st, fnKey, "at(return):"+labelOr(cl, i), clauseTags(cl, ct), g, where, cl.Src)
 				if cl.Kind == "hint" {
+					ex.oblige(st, fnKey, "hint(return):"+labelOr(cl, i), clauseTags(cl, ct), g, where, cl.Src)
 					st.assume(g)
+				} else {
+					ex.oblige(st, fnKey, "at(return):"+labelOr(cl, i), clauseTags(cl, ct), g, where, cl.Src)
 				}
 			}
 		}
